@@ -24,4 +24,6 @@ func verifBarrierKey(m msgstream.TsMsg) int64 { return 0 }
 func verifEtcdClient(cfg config.EtcdServerConfig) *clientv3.Client { return nil }
 
 // verifDispatcherClient never provides a client unless built with the verif tag.
-func verifDispatcherClient(mqConfig config.MQConfig, ttMsgStream bool) msgdispatcher.Client { return nil }
+func verifDispatcherClient(mqConfig config.MQConfig, ttMsgStream bool) msgdispatcher.Client {
+	return nil
+}
